@@ -2,6 +2,7 @@
 import dt
 import ras
 import engine
+import statecoh
 
 META = {
     'explanation': 'Static rules: R10.1 the only functions that feed or run the shared rasteriser are fill and push_clip (via apply_path), and in '
@@ -18,4 +19,4 @@ META = {
 
 
 def run(ctx):
-    engine.run_rules(ctx, [ras.r10_1, ras.r10_2, ras.r10_3, ras.r10_4, dt.r06_3, dt.r06_5, dt.r05_3])
+    engine.run_rules(ctx, [ras.r10_1, ras.r10_2, ras.r10_3, ras.r10_4, dt.r06_3, dt.r06_5, dt.r05_3, statecoh.r10_6])
